@@ -592,9 +592,12 @@ package server
 //@ func (*metadataAPI).RemoveStream serves C06, C12
 //@   call removeStreamLocked requires [same-operation] arg1 == stream && arg2 == recovered && arg3 == epoch
 //@   call streamDeleted requires [only-a-real-deletion] !recovered && arg2 == epoch
+// (the groups refuse a notice older than their own epoch, and group operations replayed after the delete have raised it:
+//  the deferred notice of a replayed delete must carry the index at which the replay ended, the caller's epoch)
 //@ func (*metadataAPI).RemoveTombstonedStream serves C06
 //@   ghost after call IsTombstoned: ghost.tombstoned := ret0
 //@   call deleteStream requires [still-tombstoned] ghost.tombstoned && arg1 == stream
+//@   call streamDeleted requires [the-deferred-notice-carries-the-end-of-replay-index] arg2 == epoch
 //@ func (*Server).finishedRecovery serves C06
 //@   ghost after call IsTombstoned: ghost.tombstoned := ret0
 //@   call RemoveTombstonedStream requires [only-tombstoned] ghost.tombstoned
